@@ -54,6 +54,14 @@ theorem C06_no_echo_host_epoch (s : Asset.State) (as : List Asset.Act) (hi : Ass
   have h := (Asset.hinv_run s as hi ha).2 c hc
   exact ⟨h.1, h.2.1⟩
 
+/-- **C06, inline materials, one epoch, without assuming the drain**: after the publications of one writer (host or any
+client, any number of overwrites, any schedule) there is a continuation without publications — three fair rounds — after
+which every peer holds the last publication and nothing is pending -/
+theorem C06_material_epoch_total (x : Option Nat) (s : Mat.State) (e : Mat.Epoch) (hn : (s.clients.map (·.id)).Nodup)
+    (hs : Mat.Settled x s) (hd : e.disciplined) (hp : e.writer = 0 ∨ ∃ c ∈ s.clients, c.id = e.writer) :
+    ∃ more : List Mat.Act, (∀ a ∈ more, Mat.isPub a = false) ∧ Mat.Settled e.last (Mat.run true (e.run s) more) :=
+  Mat.epoch_total x s e hn hs hd hp
+
 /-- **inline materials: "once traffic has drained" is reached, not assumed** — from any state with distinct client ids,
 three fair rounds without publications end in a quiescent state (the premise of the convergence theorem below) -/
 theorem C06_materials_drain_reached (s : Mat.State) (hn : (s.clients.map (·.id)).Nodup) :
